@@ -47,7 +47,8 @@ def run(ctx):
     rep.guarded("order", S, lambda: rule_order(facts, rep))
     rep.guarded("no-padding", "anstyle", lambda: rule_no_padding(facts, rep, "anstyle", "C05"))
     rep.guarded("io-path", "anstyle", lambda: rule_io_path(facts, rep))
-    for r, n in (("effects", 13), ("ansi", 4), ("templates", 12), ("digits", 4), ("order", 16), ("no-padding", 20), ("io-path", 3)):
+    rep.guarded("effect-sets", "anstyle::effect::Effects", lambda: rule_effect_sets(facts, rep, ctx.tier))
+    for r, n in (("effects", 13), ("ansi", 4), ("templates", 12), ("digits", 4), ("order", 16), ("no-padding", 20), ("io-path", 3), ("effect-sets", 2)):
         rep.floor(r, n)
 
 
@@ -97,6 +98,56 @@ def rule_effects(facts, rep):
     rd = facts.body("anstyle", "<anstyle::reset::Reset as core::fmt::Display>::fmt")
     ok_, found_ = ac.reset_display_ok(facts)
     rep.check(ok_, "effects", rd["path"], "writes-RESET", f"Display for Reset writes ESC[0m verbatim, once, with no padding: {found_}", loc(rd))
+
+
+def rule_effect_sets(facts, rep, tier="quick"):
+    """What a set of effects renders to, by abstract evaluation of both renderers end to end (`Effects::render` and the Display of
+    what it returns; `Effects::write_to`), the iterator included: for the empty set, every single effect, every pair and the full
+    set (thorough tier: all 4096 sets) the text handed to the sink is the escape code of each member, in bit order, and nothing
+    else — a renderer that filters the set first, skips a member in company of another, or emits a non-member shows here."""
+    import abseval
+    EFFT = "anstyle::effect::Effects"
+    order = sgr.EFFECT_ORDER
+    n = len(order)
+    if tier == "thorough":
+        sets = list(range(1 << n))
+    else:
+        sets = [0] + [1 << i for i in range(n)] + [(1 << i) | (1 << j) for i in range(n) for j in range(i + 1, n)] + [(1 << n) - 1]
+    bad = {"Display": [], "io::Write": []}
+    rb = facts.body("anstyle", EFFT + "::render")
+    wb = facts.body("anstyle", EFFT + "::write_to")
+    rep.fn(rb["path"])
+    rep.fn(wb["path"])
+    for v in sets:
+        got = []
+        sink = lambda a_: (got.append(a_[1]), ("ok", ("unit",)))[1]
+        ev = abseval.Evaluator(facts, "anstyle", {"std::io::Write::write_all": sink, "core::str::<impl str>::as_bytes": lambda a_: a_[0],
+                                                  "core::fmt::Formatter::<'a>::write_str": sink, "core::fmt::Write::write_str": sink})
+        want = [("str", "\x1b[" + sgr.EFFECT_RENDER[order[i]] + "m") for i in range(n) if v >> i & 1]
+        val = ("ctor", EFFT, ("int", v))
+        for label, run_ in (("Display", lambda: _display(ev, facts, ev.call_fn("anstyle", rb["path"], [val]))),
+                            ("io::Write", lambda: ev.call_fn("anstyle", wb["path"], [val, ("sym", "w")]))):
+            got.clear()
+            try:
+                r = run_()
+                if got != want or r != ("ok", ("unit",)):
+                    bad[label].append(f"effects {[order[i] for i in range(n) if v >> i & 1]}: emits {[g[1] if g[0] == 'str' else g for g in got]} result {r}")
+            except Unrecognised as ex:
+                bad[label].append(f"not evaluable: {ex}")
+    rep.count(2 * len(sets))
+    for label, body in (("Display", rb), ("io::Write", wb)):
+        rep.check(not bad[label], "effect-sets", body["path"], f"{label}:each-member's-code-in-bit-order",
+                  f"{len(sets)} effect sets evaluated on the {label} path {bad[label][:2]}"[:500], loc(body))
+
+
+def _display(ev, facts, shown):
+    """Display::fmt of the value `render()` returned (a newtype of the crate)."""
+    if not (shown[0] == "ctor" and isinstance(shown[1], str)):
+        raise Unrecognised(f"render() returns {str(shown)[:60]}")
+    path = f"<{shown[1]} as core::fmt::Display>::fmt"
+    if path not in facts.crate("anstyle")["_bodies"]:
+        raise Unrecognised(f"no Display impl for {shown[1]}")
+    return ev.call_fn("anstyle", path, [shown, ("sym", "f")])
 
 
 def rule_io_path(facts, rep):
